@@ -195,6 +195,8 @@ class RefDispatch:
                     if r['tmpl'] is not None and not self._tmpl(r['tmpl'], args):
                         continue
                     exp['matching' if r['matching'] else 'exact'].append((i, r['tag']))
+                    exp.setdefault('carry', {})[(i, r['tag'], len([e for e in exp['exact'] + exp['matching'] if e == (i, r['tag'])]))] = \
+                        (['now'] if tt in (None, 1) else ['tag', str(int(float(tt)))], op[2][0], op[2][1], self.ports[op[3]])
                     if r['oneshot']:
                         self._off(i)
             return exp
@@ -245,6 +247,21 @@ def check_history(ops, impl, ports):
         got_m = [g for g in got if kind(g[0])]
         if got_e != exp['exact']:
             return n, 'exact dispatcher invoked (responder, function) %s, the property demands %s' % (got_e, exp['exact'])
+        # what each callable received beyond the message: the time of ITS bundle, the sender, the port
+        seen = {}
+        for x in log:
+            if isinstance(x, str) or len(x) < 8:
+                continue
+            key0 = (x[0], x[1])
+            seen[key0] = seen.get(key0, 0) + 1
+            car = exp.get('carry', {}).get((x[0], x[1], seen[key0]))
+            if car is None:
+                continue
+            import socket as _s, struct as _st
+            ip = _st.unpack('>I', _s.inet_aton(car[1]))[0]
+            if (x[7] >= 2 and x[3] != car[0]) or (x[7] >= 3 and (x[4], x[5]) != (ip, car[2])) or (x[7] >= 4 and x[6] != car[3]):
+                return n, 'responder %d was handed time %s sender (%s, %s) port %s; the message was sent with time %s from (%s, %s) to port %s' % (
+                    x[0], x[3], x[4], x[5], x[6], car[0], ip, car[2], car[3])
         if got_m != exp['matching']:
             return n, 'matching dispatcher invoked (responder, function) %s, the property demands %s (registration order)' % (got_m, exp['matching'])
     return None
